@@ -4,7 +4,7 @@
    nothing but positions.  Gaps after a token that ends by look-ahead, literal spellings, != versus <>, redundant
    parentheses and trailing semicolons are decided by the correspondence run (C14_partial). *)
 From Coq Require Import ZArith List Bool.
-From Ckl Require Import Prelude.PyPrelude Prelude.LexPrelude Gen.LexGen Model.LexRun Proofs.LexProofs.
+From Ckl Require Import Prelude.PyPrelude Prelude.LexPrelude Gen.LexGen Model.LexRun Proofs.LexProofs Proofs.LexLayout.
 Import ListNotations.
 Open Scope Z_scope.
 
@@ -30,3 +30,18 @@ Example C14_spellings :
   erase_lexres (lex [34; 97; 92; 120; 52; 49; 34]) = erase_lexres (lex [39; 97; 65; 39]) /\   (* "a\x41" = 'aA' *)
   gap_ok false [32; 35; 99; 13; 10; 9; 10] = true.
 Proof. vm_compute. repeat split; reflexivity. Qed.
+
+(* outside string, pattern and comment states a tab, CR or LF acts exactly like a blank in EVERY scanner state -
+   also directly after a token that is still being read (identifier, number, operator) -, up to positions *)
+Theorem C14_whitespace_uniform : forall s a, mem_z a [9; 13; 10] = true -> literal_state (l_state s) = false ->
+  erase_res (lex_step s a) = erase_res (lex_step s 32).
+Proof. exact ws_like_blank. Qed.
+Print Assumptions C14_whitespace_uniform.
+
+(* hence replacing a blank between two tokens by a tab, CR or LF never changes the token values and types of the text *)
+Theorem C14_whitespace_equivalent : forall fuel s1 s2 a rest acc1 acc2,
+  erase_state s1 = erase_state s2 -> map erase_tok acc1 = map erase_tok acc2 ->
+  mem_z a [9; 13; 10] = true -> literal_state (l_state s1) = false ->
+  erase_lexres (lex_loop fuel s1 (a :: rest) acc1) = erase_lexres (lex_loop fuel s2 (32 :: rest) acc2).
+Proof. exact ws_equiv. Qed.
+Print Assumptions C14_whitespace_equivalent.
